@@ -24,6 +24,9 @@ TARGETS = [
     'ServerBase.send_result_down', 'Manager.handle_result_from_below',
     'DetachedServer.handle_result', 'DetachedServer.handle_request',
     'DetachedServer.handle_new_comp_task',
+    'Manager.handle_message#ABOVE.RESULT',
+    'Manager.handle_message#BELOW.RESULT',
+    'DetachedServer.handle_message#BELOW.RESULT',
 ]
 
 
@@ -34,6 +37,8 @@ def setup(repo: str) -> tuple[Program, list[str]]:
     c15.contracts(p)
     c13.contracts(p)
     worker.contracts(p)
+    from contracts.dispatch import add_dispatch
+    add_dispatch(p)
     return p, [t for t in TARGETS if t in p.contracts]
 
 
@@ -42,4 +47,6 @@ def bounded(tier: str) -> dict:
     gens.update(c13.bounded(tier))
     gens.update(c15.bounded(tier))
     gens.update(worker.bounded(tier))
+    from contracts.dispatch import bounded_dispatch
+    gens.update(bounded_dispatch(tier))
     return {t: gens[t] for t in TARGETS if t in gens}
